@@ -30,12 +30,14 @@ def private_interp(ctx):
             if not os.path.exists(mine):
                 shutil.copy2(exe, mine + ".tmp%d" % os.getpid())
                 os.rename(mine + ".tmp%d" % os.getpid(), mine)
-            for f in os.listdir(os.path.dirname(mine)):
-                if f != os.path.basename(mine):
-                    try:
-                        os.remove(os.path.join(os.path.dirname(mine), f))
-                    except OSError:
-                        pass
+            os.utime(mine, None)
+            d = os.path.dirname(mine)
+            olds = sorted((os.path.getmtime(os.path.join(d, f)), f) for f in os.listdir(d))
+            for _, f in olds[:-3]:                      # keep the three most recent (concurrent runs of this check)
+                try:
+                    os.remove(os.path.join(d, f))
+                except OSError:
+                    pass
             return mine
         except (OSError, IOError) as e:
             last = e
@@ -107,8 +109,6 @@ def oracle(case, res):
     unconds = [n for n, (k, _) in objs.items() if k == "uncond"]
     evs = res["events"]
     stats = {"rendezvous": 0, "early": 0, "late": 0}
-    if res["verdict"] is None:
-        return "run produced no verdict (crash?) rc=%s: %s" % (res["rc"], res.get("stderr", "")[-200:]), stats
     # per thread call stack, top-level op index
     stack, topidx = {}, {}
     wait_open = {}      # (u, T) -> {"pushes": n, "published": bool}
@@ -199,6 +199,8 @@ def oracle(case, res):
                 if so is None:
                     return "push on %s outside a usignal call (%s)" % (u, e.raw), stats
                 so["pushes"] += 1
+    if res["verdict"] is None:
+        return "run produced no verdict (the library crashed?) rc=%s: %s" % (res["rc"], res.get("stderr", "")[-200:]), stats
     if not res["verdict"].startswith("DONE"):
         return "verdict %s (a waiter was never resumed or a signal never completed)" % res["verdict"], stats
     for u in unconds:
@@ -491,6 +493,9 @@ def safe_run_case(exe, text, wd, name):
         res = {"rc": -1, "out": "trace truncated (crash)", "events": evs, "verdict": None, "trace_path": tp,
                "case_path": os.path.join(wd, name + ".case"), "trace_text": "\n".join(good)}
     res["stderr"] = res["out"]
+    # a crash of the library under test can cut the last line short: keep well-formed events only
+    need = {"C": 1, "R": 2, "P": 3, "S": 1, "E": 1}
+    res["events"] = [e for e in res["events"] if len(e.words) >= need.get(e.kind, 1)]
     return res
 
 
